@@ -26,12 +26,16 @@ type c18Fault struct {
 	kind  int   // 0 none, 1 position F, 2 quota Q
 	at    int64 // F or Q
 	whole bool  // all-or-nothing: a write that would be cut is refused completely (error alone)
+	late  bool  // late failure: the device stores every byte offered but still reports its error
 }
 
 func (f c18Fault) String() string {
 	st := "partial"
 	if f.whole {
 		st = "all-or-nothing"
+	}
+	if f.late {
+		st = "all-bytes-stored-but-error-reported"
 	}
 	switch f.kind {
 	case 1:
@@ -44,7 +48,7 @@ func (f c18Fault) String() string {
 
 // accept says how many of n bytes offered at absolute offset off the device takes, given the
 // bytes accepted so far. It is a pure function shared by the device and the model.
-func (f c18Fault) accept(off int64, n int, sofar int64) int {
+func (f c18Fault) accept(off int64, n int, sofar int64) (int, bool) {
 	k := n
 	switch f.kind {
 	case 1:
@@ -64,10 +68,14 @@ func (f c18Fault) accept(off int64, n int, sofar int64) int {
 			k = int(room)
 		}
 	}
-	if k < n && f.whole {
+	failed := k < n
+	if failed && f.whole {
 		k = 0
 	}
-	return k
+	if failed && f.late {
+		k = n
+	}
+	return k, failed
 }
 
 type c18Assign struct {
@@ -97,13 +105,13 @@ func (d *c18Dev) WriteAt(p []byte, off int64) (int, error) {
 		}
 		d.touched = true
 	}
-	k := d.fault.accept(off, len(p), d.accepted)
+	k, failed := d.fault.accept(off, len(p), d.accepted)
 	for i := 0; i < k; i++ {
 		d.image[off+int64(i)] = p[i]
 		d.op = append(d.op, c18Assign{off + int64(i), p[i]})
 	}
 	d.accepted += int64(k)
-	if k < len(p) {
+	if failed {
 		return k, errC18Dev
 	}
 	return k, nil
@@ -248,11 +256,11 @@ func (c *c18Mon) Write(n int) bool {
 			pp = pp[:c.limit-c.cursor]
 			trunc = true
 		}
-		k := c.dev.fault.accept(c.cursor, len(pp), c.sofar)
+		k, failed := c.dev.fault.accept(c.cursor, len(pp), c.sofar)
 		exp = pp[:k]
 		expN = k
 		switch {
-		case k < len(pp):
+		case failed:
 			expErr = c18DevErr
 		case trunc:
 			expErr = c18Short
@@ -320,11 +328,11 @@ func (c *c18Mon) WriteAt(n int, off int64) bool {
 			pp = pp[:c.limit-start]
 			trunc = true
 		}
-		k := c.dev.fault.accept(start, len(pp), c.sofar)
+		k, failed := c.dev.fault.accept(start, len(pp), c.sofar)
 		exp = pp[:k]
 		expN = k
 		switch {
-		case k < len(pp):
+		case failed:
 			expErr = c18DevErr
 		case trunc:
 			expErr = c18Short
@@ -453,10 +461,10 @@ func c18Plans() []c18Plan {
 		for _, n := range c18Lens {
 			out = append(out, c18Plan{b, n, c18Fault{}})
 			for f := b - 1; f <= b+n+1; f++ {
-				out = append(out, c18Plan{b, n, c18Fault{1, f, false}}, c18Plan{b, n, c18Fault{1, f, true}})
+				out = append(out, c18Plan{b, n, c18Fault{kind: 1, at: f}}, c18Plan{b, n, c18Fault{kind: 1, at: f, whole: true}}, c18Plan{b, n, c18Fault{kind: 1, at: f, late: true}})
 			}
 			for q := int64(0); q <= n+1; q++ {
-				out = append(out, c18Plan{b, n, c18Fault{2, q, q&1 == 1}})
+				out = append(out, c18Plan{b, n, c18Fault{kind: 2, at: q, whole: q&1 == 1}}, c18Plan{b, n, c18Fault{kind: 2, at: q, late: true}})
 			}
 		}
 	}
@@ -468,14 +476,14 @@ func init() {
 	register(&mon.Prop{
 		ID:    "C18",
 		Level: "fault_enumeration",
-		Rule: "sections (base,n) in {0,1,7,1000} x {0,1,2,8,29}; for each: no fault, EVERY refusal position F in [base-1, base+n+1] x {partial, all-or-nothing} and EVERY quota in [0, n+1] (" + fmt.Sprint(len(plans)) + " fault plans) x seeded histories of 1..30 ops over " +
+		Rule: "sections (base,n) in {0,1,7,1000} x {0,1,2,8,29}; for each: no fault, EVERY refusal position F in [base-1, base+n+1] x {partial, all-or-nothing, all bytes stored but error reported} and EVERY quota in [0, n+1] x 2 styles (" + fmt.Sprint(len(plans)) + " fault plans) x seeded histories of 1..30 ops over " +
 			"Write/WriteAt/Seek with buffer lengths {0, 1, exactly-to-limit, limit+1, random}, every whence in {-1,0,1,2,3} and offsets around 0, cursor and end; cursor and Size read back after EVERY op; " +
 			"larger sections (n up to 5000) with sampled fault positions; AtToWriter(w, off) driven with Write histories. Non-trivial+distinct = hash of (plan, history) with >= 2 ops + distinct (op, cursor relation, truncation, fault, outcome) transitions.",
 		Assumptions: []string{"offsets kept within +-2^40 so int64 wrap-around (unspecified) is never exercised", "WriteAt with a negative offset: only 'nothing written, count 0' is asserted (the statement does not name the error)",
 			"underlying writer: a device that refuses bytes by absolute position or by total quota; its error wins over io.ErrShortWrite"},
 		Flavours: releaseThenGo126,
 		Required: []string{"write/inside", "write/last-byte", "write/at-end", "write/beyond-end", "write/truncated", "write/empty-buffer", "writeat/at-or-beyond-end", "writeat/truncated", "writeat/ends-exactly-at-limit",
-			"writeat/negative-offset", "seek/whence=0", "seek/whence=1", "seek/whence=2", "seek/invalid-whence", "seek/before-start", "seek/beyond-end", "fault/hit-in-Write", "fault/hit-in-WriteAt",
+			"writeat/negative-offset", "seek/whence=0", "seek/whence=1", "seek/whence=2", "seek/invalid-whence", "seek/before-start", "seek/beyond-end", "fault/hit-in-Write", "fault/hit-in-WriteAt", "fault/late-error-style",
 			"section/n=0", "attowriter", "write-after-seek", "write-after-partial-write"},
 		Families: func(c *mon.Config) []mon.Family {
 			reps := c.Pick(80, 12000)
@@ -514,7 +522,10 @@ func c18History(w *mon.W, p c18Plan, idx int) {
 		w.Bucket("section/n=0")
 	}
 	nops := 1 + r.Intn(30)
-	h := gen.Hash64(uint64(p.base), uint64(p.n), uint64(p.fault.kind), uint64(p.fault.at), uint64(b2i(p.fault.whole)))
+	h := gen.Hash64(uint64(p.base), uint64(p.n), uint64(p.fault.kind), uint64(p.fault.at), uint64(b2i(p.fault.whole)), uint64(b2i(p.fault.late)))
+	if p.fault.late {
+		w.Bucket("fault/late-error-style")
+	}
 	lastSeek, lastPartial := false, false
 	for k := 0; k < nops; k++ {
 		room := c.limit - c.cursor
@@ -600,9 +611,15 @@ func c18Large(w *mon.W, idx int) {
 	switch r.Intn(4) {
 	case 0:
 	case 1:
-		p.fault = c18Fault{1, p.base + int64(r.Intn(int(p.n)+2)), r.Bool()}
+		p.fault = c18Fault{kind: 1, at: p.base + int64(r.Intn(int(p.n)+2)), whole: r.Bool()}
+		if r.Intn(3) == 0 {
+			p.fault.whole, p.fault.late = false, true
+		}
 	default:
-		p.fault = c18Fault{2, int64(r.Intn(int(2*p.n) + 2)), r.Bool()}
+		p.fault = c18Fault{kind: 2, at: int64(r.Intn(int(2*p.n) + 2)), whole: r.Bool()}
+		if r.Intn(3) == 0 {
+			p.fault.whole, p.fault.late = false, true
+		}
 	}
 	c18History(w, p, idx)
 }
@@ -613,9 +630,9 @@ func c18AtToWriter(w *mon.W, idx int) {
 	dev := &c18Dev{image: map[int64]byte{}}
 	switch r.Intn(3) {
 	case 1:
-		dev.fault = c18Fault{1, off + int64(r.Intn(300)), r.Bool()}
+		dev.fault = c18Fault{kind: 1, at: off + int64(r.Intn(300)), whole: r.Bool()}
 	case 2:
-		dev.fault = c18Fault{2, int64(r.Intn(300)), r.Bool()}
+		dev.fault = c18Fault{kind: 2, at: int64(r.Intn(300)), late: r.Bool()}
 	}
 	w.Op, w.A = "AtToWriter", off
 	wr := iohelper.AtToWriter(dev, off)
